@@ -167,6 +167,24 @@ func buildBattery(w *frontWorld, tag string) []probe {
 			}
 		}
 	}
+	// Admin publish to every slot route, a payload below and one above the 4-byte route limit a slot may carry
+	for i, p := range slotPaths {
+		for _, size := range []string{"small", "big"} {
+			for _, tok := range []string{"", "a1"} {
+				payload := "eA=="
+				if size == "big" {
+					payload = "YmJiYmJiYmI="
+				}
+				body, _ := json.Marshal(map[string]any{"items": []map[string]any{{"id": fmt.Sprintf("pub-%s-%d-%s-%s", tag, i, size, tok), "route": p, "target": "pull", "payload_b64": payload}}})
+				r := FReq{Method: "POST", Path: "/messages/publish", Host: "a", Remote: "127.0.0.1:1", Body: body,
+					Headers: [][2]string{{"Content-Type", "application/json"}, {"X-Hookaido-Audit-Reason", "verif"}}}
+				if tok != "" {
+					r.Headers = append(r.Headers, [2]string{"Authorization", "Bearer " + tok})
+				}
+				ps = append(ps, probe{name: fmt.Sprintf("publish %s %s tok=%s", p, size, tok), api: "admin", req: r})
+			}
+		}
+	}
 	for _, tok := range []string{"", "a1", "a2"} {
 		r := FReq{Method: "GET", Path: "/healthz", Host: "a", Remote: "127.0.0.1:1"}
 		if tok != "" {
@@ -509,6 +527,16 @@ func runC18(c C18Case, tolerate bool) *fOutcome {
 				if strings.HasPrefix(names[i], "pull ") && strings.HasPrefix(vAfter[i], "200") {
 					// messages were handed out to a caller, or from a route, the configuration in force does not allow
 					f.Prop = "C18,C11"
+				}
+				if strings.HasPrefix(names[i], "publish ") && vAfter[i] == "200" {
+					// a publish the configuration in force refuses (size limit, authorization) was stored
+					f.Prop = "C18,C15,C12"
+					if vNew2[i] == "401" || vNew2[i] == "403" {
+						f.Prop = "C18,C11"
+					}
+				}
+				if strings.HasPrefix(names[i], "/") && strings.Contains(names[i], "-big") && strings.HasPrefix(vAfter[i], "202") && vNew2[i] == "413" {
+					f.Prop = "C18,C12"
 				}
 				out.Failure = f
 				return out
@@ -874,24 +902,30 @@ func TestProp_C18_MgmtRollback(t *testing.T) {
 
 var _ = json.Marshal
 
-// TestProp_C11_AfterReload: the reload pairs for C11's share - after a reload, with everything the
-// process remembers from the requests it served before, no pull endpoint hands out messages to a caller
-// (or from a route) the configuration in force does not allow.
-func TestProp_C11_AfterReload(t *testing.T) {
+// The reload pairs for other properties' share: after a reload, with everything the process remembers
+// from the requests it served before (the battery is answered once under the old configuration), it
+// behaves like a process started on the new configuration - no pull endpoint hands out messages to a
+// caller or from a route the configuration in force does not allow (C11), no publish or ingress
+// request above the size limit in force is stored (C15, C12).
+func c18AfterReload(t *testing.T, prop, test string) {
 	gen := rapid.Custom(func(t *rapid.T) C18Case {
 		c := genC18Case().Draw(t, "case")
 		c.Mode, c.Warm = "pause", true
 		return c
 	})
-	frontProp(t, "C11", "TestProp_C11_AfterReload", gen, func(c C18Case, tol bool) *fOutcome {
+	frontProp(t, prop, test, gen, func(c C18Case, tol bool) *fOutcome {
 		out := runC18(c, tol)
-		if f := out.Failure; f != nil && f.Prop != "HARNESS" && !strings.Contains(f.Prop, "C11") {
+		if f := out.Failure; f != nil && f.Prop != "HARNESS" && !strings.Contains(f.Prop, prop) {
 			out.Failure = nil
 			out.Labels["foreign-clause"] = true
 		}
 		return out
 	})
 }
+
+func TestProp_C11_AfterReload(t *testing.T) { c18AfterReload(t, "C11", "TestProp_C11_AfterReload") }
+func TestProp_C15_AfterReload(t *testing.T) { c18AfterReload(t, "C15", "TestProp_C15_AfterReload") }
+func TestProp_C12_AfterReload(t *testing.T) { c18AfterReload(t, "C12", "TestProp_C12_AfterReload") }
 
 // TestProp_C08_ReloadWindow: the reload pairs for C08's share - no request is accepted inside a
 // reload that neither the old nor the new configuration would accept.
